@@ -141,6 +141,14 @@ def chk_represent(c):
                 _close(f.grid_hessian(grid), tp.grid_hessian(grid), 'HSplineFunc.grid_hessian (truncate=%s)' % trunc, tol=1e-7)
             pt = tuple(g[len(g) // 2] for g in grid)[::-1]
             _close(np.asarray(f(*pt)), np.asarray(tp(*pt)), 'HSplineFunc.__call__ at a single point')
+        # complex coefficient vectors (time-harmonic problems): evaluation is linear, real and imaginary parts are carried along
+        ur, ui = _rand_coeffs(hs.numdofs, 5)[:2]
+        uc = ur + 1j * ui
+        fc = hierarchical.HSplineFunc(hs, uc, truncate=trunc)
+        want = _values(hs, ur, grid, trunc) + 1j * _values(hs, ui, grid, trunc)
+        got = np.asarray(fc.grid_eval(grid))
+        assert np.iscomplexobj(got) and np.max(np.abs(got - want)) <= 1e-10 * max(1.0, np.max(np.abs(want))), \
+            'HSplineFunc.grid_eval with complex coefficients (truncate=%s): imaginary part lost or wrong (max deviation %g)' % (trunc, np.max(np.abs(got - want)))
 
 
 def chk_prolongate_to(c):
